@@ -32,7 +32,9 @@ impl Enc {
         match self {
             Enc::Json => "application/json",
             Enc::Smile => "application/x-jackson-smile",
-            Enc::Text => "text/plain",
+            // the third encoding's own content type carries a parameter (its media type is still
+            // text/plain: parameters of the registered type do not take part in matching)
+            Enc::Text => "text/plain; charset=utf-8",
         }
     }
 }
@@ -41,7 +43,7 @@ struct TextEncoding;
 
 impl Encoding for TextEncoding {
     fn content_type(&self) -> HeaderValue {
-        HeaderValue::from_static("text/plain")
+        HeaderValue::from_static("text/plain; charset=utf-8")
     }
     // a third registered encoding with its own media type; the bytes are JSON
     fn serializer<'a>(&self, w: &'a mut Vec<u8>) -> Box<dyn SerializerState<'a> + 'a> {
@@ -509,8 +511,59 @@ fn request_side(r: &mut Report) {
                     }
                 }
             }
+            // the deserializers that sit on top of it: a body is decoded only under a matching
+            // registered encoding - also when the body is empty, also through the optional
+            // deserializer (absent header = absent value), blocking and async alike
+            {
+                use conjure_http::server::conjure::OptionalRequestDeserializer;
+                use conjure_http::server::{AsyncDeserializeRequest, DeserializeRequest, StdRequestDeserializer};
+                use crate::script::{self, ScriptIter, ScriptStream};
+                let docs: Vec<Vec<u8>> = vec![vec![], match want.map(|i| registry[i]) {
+                    Some(Enc::Smile) => serde_smile::to_vec(&"x").unwrap(),
+                    _ => b"\"x\"".to_vec(),
+                }];
+                for (bi, body) in docs.iter().enumerate() {
+                    let s = if body.is_empty() { vec![] } else { script::default_script(body) };
+                    let runs: Vec<(&str, Result<Result<Option<String>, String>, String>)> = vec![
+                        ("StdRequestDeserializer", vcommon::catch(|| <StdRequestDeserializer as DeserializeRequest<String, _>>::deserialize(&rt, &headers, ScriptIter::new(&s)).map(Some).map_err(|e| e.cause().to_string()))),
+                        ("StdRequestDeserializer(async)", vcommon::catch(|| futures::executor::block_on(<StdRequestDeserializer as AsyncDeserializeRequest<String, _>>::deserialize(&rt, &headers, ScriptStream::new(&s))).map(Some).map_err(|e| e.cause().to_string()))),
+                        ("OptionalRequestDeserializer", vcommon::catch(|| <OptionalRequestDeserializer as DeserializeRequest<Option<String>, _>>::deserialize(&rt, &headers, ScriptIter::new(&s)).map_err(|e| e.cause().to_string()))),
+                        ("OptionalRequestDeserializer(async)", vcommon::catch(|| futures::executor::block_on(<OptionalRequestDeserializer as AsyncDeserializeRequest<Option<String>, _>>::deserialize(&rt, &headers, ScriptStream::new(&s))).map_err(|e| e.cause().to_string()))),
+                    ];
+                    for (name, got) in runs {
+                        r.evaluations += 1;
+                        let optional = name.starts_with("Optional");
+                        // what the statement allows: no header -> the optional one yields absent, the
+                        // required one refuses; a header naming no registered encoding -> refused;
+                        // a matching one -> the document (the empty body is no document)
+                        let ok = match (&got, raw.is_none(), want, bi) {
+                            (Err(_), _, _, _) => false,
+                            (Ok(Ok(None)), true, _, _) => optional,
+                            (Ok(Err(_)), true, _, _) => !optional,
+                            (Ok(Err(_)), false, None, _) => true,
+                            (Ok(Ok(_)), false, None, _) => false,
+                            (Ok(Err(_)), false, Some(_), 0) => true,
+                            (Ok(Ok(Some(v))), false, Some(_), 1) => v == "x",
+                            _ => false,
+                        };
+                        if ok {
+                            r.outcome("request:deserializer-honours-content-type");
+                        } else {
+                            r.violation(
+                                format!("C11|request|deserializer|{}|{}", name, if want.is_some() { "registered" } else if raw.is_none() { "no-header" } else { "unregistered" }),
+                                format!("Content-Type {:?}, registry {:?}, {} body: {} gave {:?}", case_ct(raw), registry.iter().map(|e| e.content_type()).collect::<Vec<_>>(), if bi == 0 { "empty" } else { "one-document" }, name, got),
+                                json!({"content_type": raw.as_ref().map(|b| String::from_utf8_lossy(b).into_owned()), "registry": registry.iter().map(|e| e.content_type()).collect::<Vec<_>>()}),
+                            );
+                        }
+                    }
+                }
+            }
         }
     }
+}
+
+fn case_ct(raw: &Option<Vec<u8>>) -> Option<String> {
+    raw.as_ref().map(|b| String::from_utf8_lossy(b).into_owned())
 }
 
 pub fn run(args: &Args) -> Report {
